@@ -6,7 +6,7 @@ out=seeded/direct_runs.txt
 for item in "$@"; do
   sid=${item%%=*}; chk=${item##*=}
   git -C /repo diff --quiet || { echo "/repo has local changes, refusing"; exit 2; }
-  git -C /repo apply "seeded/$sid/patch.diff" || { echo "$sid: patch does not apply"; continue; }
+  git -C /repo apply "$PWD/seeded/$sid/patch.diff" || { echo "$sid: patch does not apply"; continue; }
   VERIF_VIOLATIONS=/var/tmp/mqtt-verif/violations-direct ./check "$chk" --no-evidence > /var/tmp/mqtt-verif/direct.log 2>&1
   rc=$?
   git -C /repo checkout -- .
